@@ -2,8 +2,8 @@
 import random
 from propdefs import bfs
 
-N_DOCS = 20
-GOOD_URLS = [1, 2, 3, 4]
+N_DOCS = 21
+GOOD_URLS = [1, 2, 3, 4, 16]
 ODD_URLS = [5, 6, 7, 8, 9, 10, 11, 12, 13, 14, 15]
 
 GEN = dict(runs=dict(quick=[bfs("MC_Calls", "Calls_design")], thorough=[bfs("MC_Calls", "Calls_design")]))
@@ -69,7 +69,9 @@ def c11_groups(cases, ctx):
         for d in range(N_DOCS):
             url = GOOD_URLS[(d + rep) % len(GOOD_URLS)]
             me = d + N_DOCS * rep
-            others = rnd.sample([x for x in range(N_DOCS * reps) if x != me], 3) + [d + N_DOCS * ((rep + 1) % reps)]
+            # one instance of every template lies between two calls on this group's document
+            others = [t + N_DOCS * rnd.randrange(reps) for t in range(N_DOCS)]
+            others = [x for x in others if x != me] + [d + N_DOCS * ((rep + 1) % reps)]
             hist = []
             for o in rnd.sample(base, 2):
                 hist += [step(o, "apply", url)] * 8 + [step(o, "reader", url)] * 2 + [step(o, "file", url)]
